@@ -24,3 +24,6 @@ import Mp.Tree
 #print axioms Mp.Tree.hasErrors_complete
 #print axioms Mp.Tree.hasErrors_eq_anyNode
 #print axioms Mp.Tree.ident_filter_not_consulted
+#print axioms Mp.offered_iff
+#print axioms Mp.offered_exact
+#print axioms Mp.offered_coherent
